@@ -36,6 +36,7 @@ ALLOW = {
         "terminated when select! starts: the arm is dead (read and confirmed).",
 }
 
+COUNTER_FIELD = [None]     # name of the codec's bytes-needed counter, found by type in run()
 ALLOC_SINKS = {"reserve", "reserve_exact", "with_capacity", "resize", "from_elem", "try_reserve", "set_len", "extend_with", "repeat"}
 
 
@@ -165,7 +166,7 @@ def tainted(e):
                 return "wire read %s" % short(x[1])
             if x == ("sym", "Wwire"):
                 return "decoder counter holding a wire-supplied length"
-            if x[0] == "field" and x[2] == "waiting_for":
+            if x[0] == "field" and x[3] == "usize" and x[1] == ("deref", ("arg", 1)) and COUNTER_FIELD[0] is not None and x[2] == COUNTER_FIELD[0]:
                 return "decoder counter field"
             if x[0] in ("index", "cindex") and any(isinstance(y, tuple) and y and y[0] == "arg" for y in walk_expr(x[1])):
                 return "byte of peer data"
@@ -186,6 +187,9 @@ def run(ctx, f, rep):
     if not cyc:
         rep.ok("R03.3", "R03.3|no-recursion", "no cycle among the %d surface functions" % len(R))
     decs = trait_impls(f, "asynchronous_codec::Decoder", "decode")
+    for self_ty in decs:
+        r_ = decoder_roles(f, self_ty)
+        COUNTER_FIELD[0] = r_["counter"] if r_ else None
     dec_paths = {}
     for self_ty, dec in decs.items():
         try:
@@ -237,6 +241,9 @@ def run(ctx, f, rep):
         keys, res = own[path]
         sig = f.fns.get(path) or {}
         private_helper = not sig.get("vis", "Public").startswith("Public") and not body.j.get("impl_trait") and not body.j.get("coroutine_kind")
+        if body.kind == "Closure":
+            # a closure literal handed straight to an Option/Result combinator that the path engine reads as a `match`
+            private_helper = closure_only_in_combinators(f, body)
         for k, r in sorted(res.items(), key=lambda kv: kv[0][1]):
             s = r["site"]
             total_sites += 1
@@ -289,6 +296,50 @@ def run(ctx, f, rep):
     rep.count("alloc_sink_evaluations", alloc_sites)
     if alloc_sites == 0:
         rep.ok("R03.2", "R03.2|no-sinks", "no allocation-size sink (reserve/with_capacity/resize/from_elem) is called on the surface")
+
+
+def _places(x):
+    if isinstance(x, dict):
+        if "l" in x and "p" in x:
+            yield x
+        for v in x.values():
+            yield from _places(v)
+    elif isinstance(x, list):
+        for v in x:
+            yield from _places(v)
+
+
+def closure_only_in_combinators(f, cb):
+    """The closure value is built once in its parent and its only use is as an argument of a call the engine expands
+    (Sym.COMBINATORS): then every invocation is looked through and its panic sites are decided in the caller's context."""
+    parent = f.body(cb.j.get("parent"))
+    if parent is None:
+        return False
+    locs = []
+    for blk in parent.blocks:
+        for st in blk["stmts"]:
+            if st["k"] == "assign" and st["rv"]["k"] == "aggregate" and st["rv"].get("ak") == "closure" and \
+                    (st["rv"].get("def") or st["rv"].get("adt")) == cb.path and not st["place"]["p"]:
+                locs.append(st["place"]["l"])
+    if len(locs) != 1:
+        return False
+    l = locs[0]
+    uses = 0
+    for blk in parent.blocks:
+        for st in blk["stmts"]:
+            uses += sum(1 for pl in _places(st) if pl["l"] == l)
+        t = blk["term"]
+        n = sum(1 for pl in _places(t) if pl["l"] == l)
+        if n:
+            fn = t["func"].get("fn") if t["k"] == "call" else None
+            fam = None
+            if fn:
+                nm = fn.get("path") or ""
+                fam = "Option" if "option::Option" in nm else ("Result" if "result::Result" in nm else None)
+            if not fn or (fam, fn["name"]) not in Sym.COMBINATORS:
+                return False
+            uses += n
+    return uses == 2      # the definition and the one call argument
 
 
 def is_wrapper_site(f, body, s):
